@@ -1,6 +1,7 @@
 (* C17 — wire interface. *)
 From Coq Require Import List NArith ZArith Bool.
 From Baize Require Import Lib.Wire C17.Model.
+From Baize Require C18.Model.
 Import ListNotations.
 
 Definition str_eqb (a : list N) (b : list N) : bool :=
@@ -69,7 +70,13 @@ Definition run_case (c : list sx) : list sx :=
       if str_eqb kind (lit "ops") then show_views (init (rd_pairs items)) :: run_ops (init (rd_pairs items)) ops
       else [tag (lit "badcase")]
   | [Str kind; items] =>
-      if str_eqb kind (lit "imm") then
+      if str_eqb kind (lit "qs") then
+        (* str(QueryParams(pairs)) and QueryParams(that text): urlencode / parse_qsl as modelled in C18 *)
+        let ps := map (fun x => match x with Lst [Str k; Str v] => (k, v) | _ => ([], []) end)
+                      (match items with Lst l => l | _ => [] end) in
+        let text := C18.Model.urlencode ps in
+        [Str text; Lst (map (fun p => Lst [Str (fst p); Str (snd p)]) (C18.Model.parse_qsl text))]
+      else if str_eqb kind (lit "imm") then
         let v := show_views (init (rd_pairs items)) in [v; v; v]
       else [tag (lit "badcase")]
   | _ => [tag (lit "badcase")]
